@@ -68,16 +68,16 @@ type c12Dag struct {
 	// without opening children. Without that a reader has to open later
 	// children early, and "the bytes preceding the span" becomes "a correct
 	// prefix no longer than that".
-	sized   bool
+	sized bool
 	// optionalFail: positions of withheld empty-span blocks (per static run)
 	optionalFail []int64
 	c            c05Case
-	s       *store.Store
-	root    cid.Cid
-	tree    *model.FileNode  // files
-	hm      *model.ShardNode // shards
-	content []byte
-	blocks  []cid.Cid // distinct non-root blocks of the entity
+	s            *store.Store
+	root         cid.Cid
+	tree         *model.FileNode  // files
+	hm           *model.ShardNode // shards
+	content      []byte
+	blocks       []cid.Cid // distinct non-root blocks of the entity
 }
 
 func c12Build(c c05Case) (*c12Dag, error) {
